@@ -674,7 +674,7 @@ def check_exports(chk, MX, tmp):
     imports = ["From MuxV Require Import Model.Export."]
     cases = []
     for it in range(chk.q(6, 40)):
-        symmetric = rng.random() < 0.5
+        symmetric = rng.random() < 0.5 or it % 3 == 2          # (every third aircraft: not left to the draw)
         sd, acs = gen_case(rng, chk.hist, two=False)
         name, ac, st, cs = acs[0]
         if symmetric:
@@ -682,12 +682,16 @@ def check_exports(chk, MX, tmp):
             ac["CG"][1] = 0.0
             # symmetric controls deflected: the exported flaps must be mirror images too (part-span surfaces included)
             cs = {k: round(rng.uniform(4.0, 15.0) * rng.choice([-1, 1]), 1) for k, v in ac["controls"].items() if v.get("is_symmetric", True)}
+            part_span = 0
             for w in ac["wings"].values():
                 c_ = w.get("control_surface")
-                if c_ and rng.random() < 0.6:
+                if c_ and (rng.random() < 0.6 or (it % 3 == 2 and part_span == 0 and any(k_ in cs for k_ in c_.get("control_mixing", {})))):
                     c_["root_span"], c_["tip_span"] = round(rng.uniform(0.35, 0.6), 2), 1.0
                     if isinstance(c_.get("chord_fraction"), list):
                         c_["chord_fraction"] = 0.25
+                    part_span += 1
+            if part_span and cs:
+                chk.count("export:symmetric-part-span-deflected")
         R = rng.choice([5, 6, 8, 9, 12])
         close_te = rng.random() < 0.7
         sheared = it % 3 == 1
